@@ -10,6 +10,7 @@ TAG = 0x736f6d6570736575
 DECIDED = [
     "LOCK: bin state (page_cursor, active_pages, free_chunks) and page alloc_count are touched only under the bin's lock (init / clean-up exempt); the two lowest-level functions require the caller's lock of the same bin and never drop it; lock and unlock are paired on every path",
     "PAIR: every non-NULL chunk handed out increments its own page's alloc_count exactly once; a free decrements exactly once",
+    "METRICS (under PAGE-RELEASE): bytes_active adds page->alloc_count * bin->size for every page of the active list and for the working page, nothing else; the purge window of a released page covers the whole page (NUM: page_end >= page + page size, page_start <= page + header)",
     "PAGE-RELEASE: an empty page is released exactly when alloc_count == 0 and it is not the working page, after its chunks were purged from the free list, it was removed from active_pages and its tags were erased; nothing touches it afterwards",
     "CLASSIFY: small/large decided only against s_max_bin_size; free goes to a bin only when both page tags match; page binding writes both tags and the bin; size-class table is 32*2^i, sorted, ends at s_max_bin_size, all sizes and the page header are multiples of 16",
     "REALLOC/CALLOC: the copy of old_size bytes is dominated by old_size <= new_size and precedes the free of the old block; calloc zeroes exactly the allocation size",
@@ -53,8 +54,9 @@ def analyse(ctx, replace=None, only=None):
         R.fn(f)
     lock_rules(R, fns)
     pairing(R, fns)
-    page_release(R, fns)
+    page_release(R, fns, P)
     classify(R, P, fns)
+    metrics(R, P, fns)
     realloc_calloc(R, fns)
     destroy(R, fns)
 
@@ -189,7 +191,7 @@ def pairing(R, fns):
             R.check(argstr(f, p.node, 1) == "addr", "PAIR", "free:pushes-freed-chunk", where(f, p), "the freed address is what is recycled")
 
 
-def page_release(R, fns):
+def page_release(R, fns, P=None):
     f = fns["s_sba_free_to_bin"]
     dom = dominators(f)
     frees = f.calls("s_aligned_free")
@@ -238,6 +240,41 @@ def page_release(R, fns):
         gk = [f.show(f.d(c)) for c, p, b in RU.guards(f, e, dom) if p]
         R.check(any(">=" in g and "page_start" in g for g in gk) and any("<" in g and "page_end" in g for g in gk), "PAGE-RELEASE", "purge-range-test", where(f, e),
                 "only chunks inside [page_start, page_end) are purged (%s)" % gk, "purge is not limited to / does not cover the page's own range: %s" % gk)
+    # the purge window covers the whole page (NUM): it starts at or before the first chunk and ends at or after the end of
+    # the page, so no chunk of the page survives on the free list (the 32-byte class has a chunk ending exactly at the end)
+    from sa.num import Num, Poly, Limit, entails
+    from sa.awslib import AwsHooks
+    al = P.fn("s_sba_alloc_from_bin") or f
+    psz = None
+    for g_ in P.functions_in("source/allocator_sba.c"):
+        for e in g_.calls("s_aligned_alloc"):
+            v_ = g_.is_const(RU.arg(g_, e.node, 0))
+            if v_:
+                psz = v_
+    hdr = None
+    rec = P.records.get("page_header")
+    if rec is not None:
+        hdr = rec.get("size")
+    if R.require(psz is not None and purge, "page size (s_aligned_alloc argument) or purge loop not found"):
+        num = Num(f, P, AwsHooks(), max_paths=4000)
+        try:
+            sts = num.states_at({purge[0].node["id"]})
+        except Limit as ex:
+            R.broken(str(ex))
+            sts = {}
+        okw, det, cnt = True, "", 0
+        for st in sts.get(purge[0].node["id"], []):
+            pgv, psv, pev = st.env.get("v:page"), st.env.get("v:page_start"), st.env.get("v:page_end")
+            cnt += 1
+            if pgv is None or psv is None or pev is None:
+                okw, det = False, "page / page_start / page_end not tracked"
+                continue
+            if not entails(st, pgv + psz - pev):
+                okw, det = False, "page_end = %r is not provably >= page + %d" % (pev, psz)
+            if not entails(st, psv - pgv - (hdr or 64)):
+                okw, det = False, "page_start = %r is not provably <= page + header" % psv
+        R.check(okw and cnt > 0, "PAGE-RELEASE", "purge-window-covers-the-page", where(f, purge[0]), "page_start <= first chunk and page_end >= page + %d in all %d states" % (psz, cnt),
+                "the purge window does not cover the whole page (%s): a chunk at the end of the page stays on the free list after the page is released and is handed out again" % det)
     R.check(bool(deact) and any(fr in RU.reach_from(f, e) for e in deact), "PAGE-RELEASE", "removed-from-active-pages", where(f, fr), "page removed from active_pages before release",
             "released page stays in active_pages: it is freed again at destroy and counted by the metrics")
     for e in deact:
@@ -258,6 +295,35 @@ def page_release(R, fns):
     # after releasing the page the freed chunk must not be recycled: the release path returns
     pushes = [e for e in RU.reach_from(f, fr) if e.kind == "call" and e.node.get("callee") == "aws_array_list_push_back"]
     R.check(not pushes, "PAGE-RELEASE", "no-recycle-after-release", where(f, fr), "the chunk of a released page is not pushed on the free list")
+
+
+def metrics(R, P, fns):
+    """METRICS: the active byte count is the sum, over every page of every bin - the pages on the active list and the
+    working page - of that page's live-block count times the bin's size class."""
+    f = fns.get("aws_small_block_allocator_bytes_active")
+    if not R.require(f is not None, "aws_small_block_allocator_bytes_active not found"):
+        return
+    adds = []
+    for b in f.blocks.values():
+        for el in b.elems:
+            for x in f.walk(el):
+                if x["k"] == "bin" and x["op"] in ("+=", "=") and f.show(f.d(x["a"][0])) == "used" and not (x["op"] == "=" and f.is_const(x["a"][1]) == 0):
+                    adds.append((b.id, x))
+    good = []
+    for blk, x in adds:
+        rhs = RU.uncast(f, x["a"][1])
+        ok = rhs is not None and rhs["k"] == "bin" and rhs["op"] == "*"
+        if ok:
+            ops = [RU.uncast(f, a) for a in rhs["a"]]
+            flds = sorted((o.get("rec"), o.get("f")) for o in ops if o is not None and o["k"] == "member")
+            ok = flds == [("page_header", "alloc_count"), ("sba_bin", "size")]
+        good.append(ok)
+    loops = [h for h, body in __import__("sa.num", fromlist=["Num"]).Num(f, P, None).loops().items()]
+    in_loop = [blk for (blk, x), ok in zip(adds, good) if ok]
+    R.check(len(adds) == 2 and all(good), "PAGE-RELEASE", "metrics:active-is-sum-of-live-counts", "%s()" % f.name, "both additions to the total are page->alloc_count * bin->size (active-list pages and the working page)",
+            "aws_small_block_allocator_bytes_active adds %s: a page on the active list is counted by something other than its live-block count (blocks released from a full page stay counted)" % [f.show(x["a"][1])[:60] for (b_, x), ok in zip(adds, good) if not ok])
+    ga = f.calls("aws_array_list_get_at")
+    R.check(len(ga) == 1 and (RU.strip_addr(f, RU.arg(f, ga[0].node, 0)) or {}).get("f") == "active_pages", "PAGE-RELEASE", "metrics:walks-the-active-list", "%s()" % f.name, "every active page's header is read")
 
 
 def classify(R, P, fns):
@@ -390,6 +456,8 @@ def destroy(R, fns):
 
 
 MUTANTS = [
+    {"name": "purge-window-ends-before-the-last-chunk", "file": FILE, "expect": "PAGE-RELEASE", "old": "        uint8_t *page_end = page_start + AWS_SBA_PAGE_SIZE;", "new": "        uint8_t *page_end = (uint8_t *)page + aws_small_block_allocator_page_size_available(NULL);"},
+    {"name": "active-pages-counted-as-full", "file": FILE, "expect": "PAGE-RELEASE", "old": "            struct page_header *page = page_addr;\n            used += page->alloc_count * bin->size;\n        }\n        if (bin->page_cursor) {", "new": "            struct page_header *page = page_addr;\n            (void)page;\n            used += ((AWS_SBA_PAGE_SIZE - sizeof(struct page_header)) / bin->size) * bin->size;\n        }\n        if (bin->page_cursor) {"},
     {"name": "free-outside-lock", "file": FILE, "expect": "LOCK",
      "old": "        sba->lock(&bin->mutex);\n        s_sba_free_to_bin(bin, addr);\n        sba->unlock(&bin->mutex);", "new": "        sba->lock(&bin->mutex);\n        sba->unlock(&bin->mutex);\n        s_sba_free_to_bin(bin, addr);"},
     {"name": "reuse-not-counted", "file": FILE, "expect": "PAIR",
